@@ -143,6 +143,8 @@ Theorem pipeline_transparent_step F PU PF sU sF o :
   buffer_idle (p_buf sU) -> buffer_idle (p_buf sF) -> p_stopped sU = false -> p_stopped sF = false ->
   (forall id, In id (map fst (p_tbl sU)) -> (id < p_next sU)%N) ->
   (forall id, In id (map fst (p_tbl sF)) -> (id < p_next sF)%N) ->
+  k_queue (p_k sU) = [] -> k_queue (p_k sF) = [] ->
+  regular_step F (pc_reader PU) (p_world sU) (p_k sU) (p_r sU) o ->
   forall w1 k1 r1 evs,
   run_one None (pc_reader PU) (pc_full PU) (p_world sU) (p_k sU) (p_r sU) o = Some (w1, k1, r1, evs) ->
   exists nU sU' obsU nF sF' obsF,
@@ -153,10 +155,11 @@ Theorem pipeline_transparent_step F PU PF sU sF o :
     p_world sF' = p_world sU' /\ p_r sF' = p_r sU' /\
     kw0 WATCHDOG_ALL (kmask F (c_recursive (pc_reader PU))) (p_k sU') (p_k sF').
 Proof.
-  intros HU HF Hfull HM Hvis HC Hw Hr K IU IF SU SF FU FF w1 k1 r1 evs Hrun.
+  intros HU HF Hfull HM Hvis HC Hw Hr K IU IF SU SF FU FF QU QF Reg w1 k1 r1 evs Hrun.
+  assert (J : qjunk (p_k sU)) by (intros e He; rewrite QU in He; destruct He).
+  assert (Q : k_queue (p_k sU) = k_queue (p_k sF)) by (rewrite QU, QF; reflexivity).
   destruct (transparent_step F (pc_reader PU) HM Hvis (pc_full PU) (p_world sU) (p_k sU) (p_k sF) (p_r sU) o
-                             w1 k1 r1 evs K Hrun) as [k1' [HrunF K1]].
-  destruct K as [_ [QU QF]].
+                             w1 k1 r1 evs K Q J Reg Hrun) as [k1' [HrunF [K1 _]]].
   destruct (pipeline_tie_filtered PU sU o w1 k1 r1 evs IU SU QU FU) as [nU [sU' [obsU [RU [A1 [A2 [A3 A4]]]]]]].
   { rewrite HU. exact Hrun. }
   destruct (pipeline_tie_filtered PF sF o w1 k1' r1 (filter (acc F) evs) IF SF QF FF)
